@@ -31,7 +31,7 @@ EOS = "▪"
 
 
 def examples(tier):
-    return 640 if tier == "quick" else 12000
+    return 2000 if tier == "quick" else 20000
 
 
 @st.composite
